@@ -25,6 +25,8 @@ type wit struct {
 	Detail    string   `json:"detail"`
 }
 
+var reqStore = make([]int, 0, 512) // the caller's request list, re-used for every call
+
 func run(c *mon.Ctx) {
 	c.Rule("PMTs generated from ground truth (1..50 streams, descriptors, program descriptors) carried as pointer_field + section + 0xFF stuffing in random packetisations (splits 1..184, adaptation-field stuffing or 0xFF padding) x PID requests: subsets in random order, duplicates, absent PIDs, PAT / PMT PID mixed in, empty list; output compared with an independent re-assembly. distinct non-trivial = distinct (kept/total class, missing PIDs present, ignorable PIDs present, duplicates, packet count class, pointer class, last-packet padding style) with at least one stream removed or one PID missing")
 	c.Assume("a request that consists only of the PAT/PMT PIDs is exercised for no-panic and input-untouched only (the statement is vacuous both ways); stream PIDs never equal the PAT or PMT PID")
@@ -190,8 +192,17 @@ func run(c *mon.Ctx) {
 			}
 			return x
 		}
-		out, err := psi.FilterPMTPacketsToPids(pkts, req)
+		// the request is handed over in one and the same slice every time (a caller's scratch list, refilled for every
+		// PMT): what it held for an earlier call is of no concern to this one
+		reqCall := append(reqStore[:0], req...)
+		out, err := psi.FilterPMTPacketsToPids(pkts, reqCall)
 		c.Eval(1)
+		for k := range req {
+			if reqCall[k] != req[k] {
+				c.Fail("filter:request-modified", "FilterPMTPacketsToPids modified the list of requested PIDs", w(""))
+				return
+			}
+		}
 		for k := range pkts {
 			if *pkts[k] != snap[k] {
 				c.Fail("filter:input-modified", fmt.Sprintf("FilterPMTPacketsToPids modified input packet %d", k), w(""))
